@@ -35,10 +35,19 @@ AXNAME = "xyz"
 # strategies
 # ----------------------------------------------------------------------------------------------
 @st.composite
-def faces_strategy(draw, kinds=("none", "pec", "pmc", "periodic"), pml_thickness=(2, 5), allow_bloch=False):
-    """Per-face boundary kinds; periodic / bloch always come in pairs on an axis."""
+def faces_strategy(draw, kinds=("none", "pec", "pmc", "periodic"), pml_thickness=(2, 5), allow_bloch=False,
+                   mixed_periodic=False):
+    """Per-face boundary kinds; periodic / bloch come in pairs on an axis, except that with mixed_periodic one axis in
+    three gets a periodic boundary object on ONE face and a wall / zero halo on the other (fdtdx accepts that: the axis
+    is wrap-padded and the wall's own condition is enforced on top)."""
     faces = {}
     for ax in range(3):
+        if mixed_periodic and "periodic" in kinds and draw(st.integers(0, 2)) == 0:
+            per_side = draw(st.sampled_from(["min", "max"]))
+            other = "max" if per_side == "min" else "min"
+            faces[f"{per_side}_{AXNAME[ax]}"] = {"kind": "periodic"}
+            faces[f"{other}_{AXNAME[ax]}"] = {"kind": draw(st.sampled_from([k for k in kinds if k in ("none", "pec", "pmc")]))}
+            continue
         pair_kinds = [k for k in kinds if k in ("periodic",)] + (["bloch"] if allow_bloch else [])
         single = [k for k in kinds if k not in ("periodic", "bloch")]
         choice = draw(st.sampled_from((["pair"] if pair_kinds else []) + (["single"] if single else [])))
@@ -65,7 +74,7 @@ def grid_strategy(draw, shape, faces=None, kinds=("uniform", "rect")):
     for ax in range(3):
         n = shape[ax]
         w = [draw(st.sampled_from([0.6, 0.75, 1.0, 1.0, 1.25, 1.6])) for _ in range(n)]
-        if faces is not None and faces[f"min_{AXNAME[ax]}"]["kind"] in ("periodic", "bloch"):
+        if faces is not None and any(faces[f"{sd}_{AXNAME[ax]}"]["kind"] in ("periodic", "bloch") for sd in ("min", "max")):
             w[-1] = w[0]
         widths.append(w)
     return {"kind": "rect", "widths": widths}
@@ -200,6 +209,8 @@ def source_strategy(draw, shape, steps, faces, kinds=("uniform_plane", "gaussian
         interior = interior_range(shape, faces)
     wl = draw(st.sampled_from([8.0, 10.0, 12.5, 16.0]))
     s = {"type": kind, "name": name, "wl_cells": wl, "amp": draw(st.sampled_from([1.0, 1.0, 0.5, 2.0, -1.5]))}
+    if draw(st.integers(0, 3)) == 0:
+        s["wave_phase"] = draw(st.sampled_from([0.5, 1.0, 1.5707963, -2.0]))  # WaveCharacter.phase_shift
     s["profile"] = draw(profile_strategy(wl)) if profiles else {"kind": "cw"}
     s["switch"] = draw(switch_strategy(steps)) if switches else {}
     if kind in ("uniform_plane", "gaussian_plane"):
@@ -314,10 +325,11 @@ def make_config(spec, lane, gradient="spec", extra=None):
 
     d = spec.get("d", 5e-8)
     g = spec.get("grid", {"kind": "uniform"})
+    ckw = {"center": tuple(spec["center"])} if spec.get("center") else {}
     if g["kind"] == "uniform":
-        grid = fdtdx.UniformGrid(spacing=d)
+        grid = fdtdx.UniformGrid(spacing=d, **ckw)
     elif g["kind"] == "quasi":
-        grid = fdtdx.QuasiUniformGrid(dx=d, dy=d, dz=d)
+        grid = fdtdx.QuasiUniformGrid(dx=d, dy=d, dz=d, **ckw)
     else:
         edges = [np.concatenate([[0.0], np.cumsum(np.asarray(w, dtype=np.float64) * d)]) for w in g["widths"]]
         grid = fdtdx.RectilinearGrid(x_edges=edges[0], y_edges=edges[1], z_edges=edges[2])
@@ -500,7 +512,7 @@ def build_objects(spec, lane, cfg):
     # sources -----------------------------------------------------------------------------------
     for i, s in enumerate(spec.get("sources", [])):
         wl = s["wl_cells"] * d
-        wave = fdtdx.WaveCharacter(wavelength=wl)
+        wave = fdtdx.WaveCharacter(wavelength=wl, phase_shift=s.get("wave_phase", 0.0))
         common = dict(wave_character=wave, name=s.get("name", f"src{i}"),
                       temporal_profile=_profile(s.get("profile", {"kind": "cw"}), wl, dt),
                       switch=_switch(s.get("switch", {}), dt, wl / 299792458.0),
